@@ -241,7 +241,8 @@ pub fn cmd_xml_obs(args: &[String]) {
 // ------------------------------------------------------------------ random documents
 const IFACES: [&str; 5] = ["org.freedesktop.DBus.Properties", "a.b", "com.example.Foo_Bar2", "a.b.c.d.e", "_x._y"];
 const MEMBERS: [&str; 5] = ["Get", "Frobate", "a", "_9", "Changed_2"];
-const SIGS: [&str; 10] = ["s", "u", "as", "a{sv}", "(ii)", "a(oa{sv})", "v", "ay", "(s(ib)ad)", "a{s(uu)}"];
+const SIGS: [&str; 14] = ["s", "u", "as", "a{sv}", "(ii)", "a(oa{sv})", "v", "ay", "(s(ib)ad)", "a{s(uu)}",
+                          "(s)", "((su))", "(a{sv})", "(v)"]; // structures with a single member keep their parentheses
 const ANN_NAMES: [&str; 4] = ["org.freedesktop.DBus.Deprecated", "org.freedesktop.DBus.Property.EmitsChangedSignal", "org.gtk.GDBus.DocString", "a.b"];
 const TEXTS: [&str; 16] = ["true", "", "a&b", "<tag>", "x>y", "say \"hi\"", "it's", "line1\nline2", "caf\u{e9} \u{20ac}", " lead", "trail ", "a  b", "&amp;", "&#10;", "tab\there", "]]>"];
 const NODE_NAMES: [&str; 5] = ["child", "a_b", "/org/example", "x/y", "n0"];
